@@ -188,6 +188,8 @@ func Sites(sp *spec.Spec, g *valgen.G, t *spec.Type, val *spec.Val, v any, path 
 		}
 	}
 	switch rt.Kind {
+	case spec.Union:
+		out = append(out, unionSites(sp, g, rt, v, path, depth)...) // union.go: probes INSIDE the selected alternative
 	case spec.Object:
 		o, _ := v.(map[string]any)
 		if o == nil {
@@ -315,7 +317,7 @@ func Validation(sp *spec.Spec, sv *spec.Service, m *spec.Method, r *vc.Rand, n i
 		for i := 0; i < budget*3 && len(out) < budget; i++ {
 			rr := r.Fork(uint64(i))
 			g := &valgen.G{S: sp, R: rr, Full: i%2 == 0}
-			tree, none := Payload(sp, m, rr, 1+i%2)
+			tree, none := PayloadAlt(sp, m, rr, 1+i%2, i+1)
 			if none || tree == nil {
 				break
 			}
@@ -324,6 +326,9 @@ func Validation(sp *spec.Spec, sv *spec.Service, m *spec.Method, r *vc.Rand, n i
 				break
 			}
 			s := sites[rr.Intn(len(sites))]
+			if us := unionOnly(sites); len(us) > 0 && rr.Fork(0x0e0f).Chance(1, 2) {
+				s = us[rr.Fork(0x0e10).Intn(len(us))] // designs with unions: half of the probes sit inside a union
+			}
 			s.Apply()
 			c := mk("probe:" + s.Rule + ":" + s.Side)
 			c.Sent = tree
@@ -352,7 +357,7 @@ func Validation(sp *spec.Spec, sv *spec.Service, m *spec.Method, r *vc.Rand, n i
 		for i := 0; i < budget*3 && made < budget; i++ {
 			rr := r.Fork(uint64(5000 + i))
 			g := &valgen.G{S: sp, R: rr, Full: true}
-			res := Result(sp, m, rr, 1)
+			res := ResultAlt(sp, m, rr, 1, i+1)
 			if res == nil {
 				break
 			}
@@ -371,6 +376,9 @@ func Validation(sp *spec.Spec, sv *spec.Service, m *spec.Method, r *vc.Rand, n i
 				break
 			}
 			s := usable[rr.Intn(len(usable))]
+			if us := unionOnly(usable); len(us) > 0 && rr.Fork(0x0e0f).Chance(1, 2) {
+				s = us[rr.Fork(0x0e10).Intn(len(us))]
+			}
 			s.Apply()
 			c := mk("result-probe:" + s.Rule + ":" + s.Side)
 			c.Sent, c.NoPay = Payload(sp, m, rr.Fork(3), 1)
@@ -446,6 +454,7 @@ func malformed(sp *spec.Spec, sv *spec.Service, m *spec.Method, r *vc.Rand, mk f
 			}
 		}
 	}
+	out = append(out, unionMalformed(sp, sv, m, r.Fork(0x0e0f), mk, validResult)...) // union.go
 	// body level
 	tree, ok := base()
 	if !ok {
